@@ -73,6 +73,7 @@ mixed error_handler(mapping m, int caught) {
   mixed *t;
   int i;
   if (policy["eh_error"]) error("error_handler fails\n");   /* the handler itself fails: not a task error of its own */
+  if (policy["eh_catch"]) { catch(tr = "x" + 1); catch(error("inside the handler\n")); tr = ""; }   /* a handler that uses catch itself */
   t = m["trace"];
   if (arrayp(t)) {
     for (i = 0; i < sizeof(t); i++) {
